@@ -117,7 +117,7 @@ func npErr(stage string, err error) npObs {
 
 var npOnce sync.Once
 
-func decodeObject(raw json.RawMessage) (*unstructured.Unstructured, error) {
+func npDecodeObject(raw json.RawMessage) (*unstructured.Unstructured, error) {
 	m := map[string]any{}
 	d := json.NewDecoder(bytes.NewReader(raw))
 	if err := d.Decode(&m); err != nil {
@@ -311,7 +311,7 @@ func npProbe(ctx context.Context, sc *npScenario) (npObs, error) {
 	if err := json.Unmarshal(sc.Probes, &probes); err != nil {
 		return npObs{Class: "err", Stage: "decode-spec", Err: "json"}, nil
 	}
-	obj, err := decodeObject(sc.Object)
+	obj, err := npDecodeObject(sc.Object)
 	if err != nil {
 		return npObs{}, err
 	}
@@ -328,7 +328,7 @@ func npMapConditions(ctx context.Context, sc *npScenario) (npObs, error) {
 	if err := json.Unmarshal(sc.Mappings, &mappings); err != nil {
 		return npObs{Class: "err", Stage: "decode-spec", Err: "json"}, nil
 	}
-	obj, err := decodeObject(sc.Object)
+	obj, err := npDecodeObject(sc.Object)
 	if err != nil {
 		return npObs{}, err
 	}
@@ -342,7 +342,7 @@ func npMapConditions(ctx context.Context, sc *npScenario) (npObs, error) {
 }
 
 func npTemplateConditions(ctx context.Context, sc *npScenario) (npObs, error) {
-	obj, err := decodeObject(sc.Object)
+	obj, err := npDecodeObject(sc.Object)
 	if err != nil {
 		return npObs{}, err
 	}
@@ -360,7 +360,7 @@ func npTemplateSource(_ context.Context, sc *npScenario) (npObs, error) {
 	if err := json.Unmarshal(sc.Items, &items); err != nil {
 		return npObs{Class: "err", Stage: "decode-spec", Err: "json"}, nil
 	}
-	obj, err := decodeObject(sc.Object)
+	obj, err := npDecodeObject(sc.Object)
 	if err != nil {
 		return npObs{}, err
 	}
@@ -382,7 +382,7 @@ func (c *npCache) OwnersForGKV(schema.GroupVersionKind) []dynamiccache.OwnerRefe
 func npTemplateReconcile(ctx context.Context, sc *npScenario) (npObs, error) {
 	scheme := newScheme()
 	s := NewStore(scheme, newMapper())
-	tm, err := decodeObject(sc.Template)
+	tm, err := npDecodeObject(sc.Template)
 	if err != nil {
 		return npObs{}, err
 	}
@@ -394,7 +394,7 @@ func npTemplateReconcile(ctx context.Context, sc *npScenario) (npObs, error) {
 	}
 	s.RawPut(tm.Object, false)
 	for _, raw := range sc.Store {
-		o, err := decodeObject(raw)
+		o, err := npDecodeObject(raw)
 		if err != nil {
 			return npObs{}, err
 		}
